@@ -480,7 +480,8 @@ Lemma carry_start m s : startable s ->
 Proof.
   intros [Hs _]. destruct m; cbn [carry].
   - exists (s_state s), (s_cnt s), (s_enckey s), (s_llcm s), (s_encrypted s). split; [exact Hs | reflexivity].
-  - exists 0, 1, None, (s_llcm s), false. split; [left; reflexivity | reflexivity].
+  - exists 0, 1, None, None, false. split; [left; reflexivity | reflexivity].
+  - exists 0, 1, None, None, false. split; [left; reflexivity | reflexivity].
 Qed.
 
 Lemma facts_startable c r : run_facts c r -> startable (r_i r) /\ startable (r_r r).
